@@ -956,7 +956,7 @@ def compare_mixture(f, m, rel=1e-9):
 # ---------------------------------------------------------------------------------------------
 COUNT_POOL = [None, "1", "2", "10", "0.5", ".5", "1.", "1.25", "12.5"]
 DENSITY_POOL = [None, ("7.8", ""), ("1", "n"), ("2.16", "i"), (".5", ""), ("2.", "n"), ("10", ""),
-                ("0.997", "i"), None, ("1.112", "")]
+                ("0.997", "i"), None, ("1.112", ""), ("0.", ""), ("0.0", "n"), (".0", "i")]
 
 
 class TableInfo(object):
